@@ -195,3 +195,85 @@ func s27() scenario {
 		return in
 	}}
 }
+
+// ---- S28: a pool holding two CA certificates with the SAME subject name (a re-keyed CA), children of both verified
+// concurrently. The per-name candidate list of the pool is shared, read-only state during Verify; the candidate that
+// matches the child's authority key identifier is not the first one for one of the leaves.
+
+var s28Once sync.Once
+var s28Root1DER, s28Root2DER, s28Leaf1DER, s28Leaf2DER []byte
+
+func s28init() {
+	s28Once.Do(func() {
+		nb := time.Date(2020, 1, 1, 0, 0, 0, 0, time.UTC)
+		na := time.Date(2040, 1, 1, 0, 0, 0, 0, time.UTC)
+		mkRoot := func(tag byte, serial int64) ([]byte, *smx509.Certificate, *sm2.PrivateKey) {
+			key, _ := sm2.NewPrivateKey(fixedScalar(tag))
+			c := &smx509.Certificate{SerialNumber: big.NewInt(serial), Subject: pkix.Name{CommonName: "verif s28 re-keyed root"}, NotBefore: nb, NotAfter: na,
+				IsCA: true, BasicConstraintsValid: true, KeyUsage: x509.KeyUsageCertSign | x509.KeyUsageCRLSign, SubjectKeyId: []byte{tag, 1, 2, 3, 4, 5, 6, 7}}
+			der, err := smx509.CreateCertificate(&engine.DetReader{Lane: tag}, c, c, &key.PublicKey, key)
+			if err != nil {
+				panic(err)
+			}
+			p, err := smx509.ParseCertificate(der)
+			if err != nil {
+				panic(err)
+			}
+			return der, p, key
+		}
+		mkLeaf := func(tag byte, serial int64, parent *smx509.Certificate, pk *sm2.PrivateKey) []byte {
+			key, _ := sm2.NewPrivateKey(fixedScalar(tag))
+			c := &smx509.Certificate{SerialNumber: big.NewInt(serial), Subject: pkix.Name{CommonName: fmt.Sprintf("leaf%d.s28.example", serial)}, NotBefore: nb, NotAfter: na,
+				BasicConstraintsValid: true, KeyUsage: x509.KeyUsageDigitalSignature, DNSNames: []string{"leaf.s28.example"}}
+			der, err := smx509.CreateCertificate(&engine.DetReader{Lane: tag}, c, parent, &key.PublicKey, pk)
+			if err != nil {
+				panic(err)
+			}
+			return der
+		}
+		var r1, r2 *smx509.Certificate
+		var k1, k2 *sm2.PrivateKey
+		s28Root1DER, r1, k1 = mkRoot(80, 1)
+		s28Root2DER, r2, k2 = mkRoot(81, 2)
+		s28Leaf1DER = mkLeaf(82, 11, r1, k1)
+		s28Leaf2DER = mkLeaf(83, 12, r2, k2)
+	})
+}
+
+func s28() scenario {
+	return scenario{name: "S28-certpool-same-subject-roots", setup: func() *inst {
+		s28init()
+		pool := smx509.NewCertPool()
+		for _, der := range [][]byte{s28Root1DER, s28Root2DER} {
+			c, err := smx509.ParseCertificate(der)
+			if err != nil {
+				panic(err)
+			}
+			pool.AddCert(c)
+		}
+		l1, err1 := smx509.ParseCertificate(s28Leaf1DER)
+		l2, err2 := smx509.ParseCertificate(s28Leaf2DER)
+		if err1 != nil || err2 != nil {
+			panic(fmt.Sprint(err1, err2))
+		}
+		at := time.Date(2030, 1, 1, 0, 0, 0, 0, time.UTC)
+		verify := func(leaf *smx509.Certificate) string {
+			ch, err := leaf.Verify(smx509.VerifyOptions{Roots: pool, CurrentTime: at, DNSName: "leaf.s28.example"})
+			if err != nil {
+				return "err:" + err.Error()
+			}
+			s := fmt.Sprintf("chains=%d", len(ch))
+			for _, c := range ch {
+				s += fmt.Sprintf(" [len=%d root-serial=%v]", len(c), c[len(c)-1].SerialNumber)
+			}
+			return s
+		}
+		in := &inst{outs: make([]string, 3)}
+		in.threads = []func(){
+			func() { in.outs[0] = verify(l2) },
+			func() { in.outs[1] = verify(l1) },
+			func() { in.outs[2] = verify(l2) + "/" + verify(l1) },
+		}
+		return in
+	}}
+}
